@@ -889,7 +889,7 @@ func init() {
 // ---- TYPEGUARD ------------------------------------------------------------------------
 
 func init() {
-	Register(&Rule{ID: "TYPEGUARD", Props: []string{"C05"}, Min: 3,
+	Register(&Rule{ID: "TYPEGUARD", Props: []string{"C05", "C13"}, Min: 3,
 		Doc: "a root is only handed out if it can be loaded again: in the function that drives the node store under MakeRoot, the node store is unreachable on every combination of the three configuration tests in which the unmarshaler does not use registered types and the key type or the value type is unknown (zeroKey == nil or zeroValue == nil) — decided by pruning the control-flow graph under each such valuation.",
 		Run: runTYPEGUARD})
 }
